@@ -3,6 +3,8 @@ import Spec.C19
 import Spec.C15
 import Spec.C20
 import Spec.C16
+import Cfi.World
+import Driver.FilesH
 open Lean Cfi.Version
 
 namespace Driver.Misc
@@ -191,8 +193,35 @@ def handleC14 (j : Json) : R Json := do
       i := i + 1
     let kv ← (← field obsJ "checks").getObj?
     let badc := kv.toList.filter (fun (_, v) => v != Json.bool true)
-    let ok := bad.isEmpty && badc.isEmpty
+    -- model side: the World model run on the operations naming the registers of ONE class only
+    -- (sound by Props.C14.reg_noninterference) must predict their data in the interleaved real run
+    let worldBad : List Nat ← match obsJ.getObjVal? "world" with
+      | .error _ => pure []
+      | .ok wj => do
+        let reg ← Driver.FilesH.decodeReg (← field wj "reg")
+        let ops ← (← arrF wj "ops").toList.mapM fun o => do
+          let a ← o.getArr?
+          match ← (← idx a 0).getStr? with
+          | "new" => do
+            let i ← (← idx a 1).getNat?
+            let d ← match ← idx a 2 with
+              | .null => pure none
+              | v => do pure (some (← decodeVals v))
+            pure (Cfi.World.Op.newReg i d)
+          | "read" => do pure (Cfi.World.Op.regRead (← (← idx a 1).getNat?) (← chars (← idx a 2)))
+          | "write" => do pure (Cfi.World.Op.regWrite (← (← idx a 1).getNat?))
+          | "set" => do pure (Cfi.World.Op.regSet (← (← idx a 1).getNat?) (← (← idx a 2).getNat?) (← decodeVal (← idx a 3)))
+          | k => throw s!"bad world op {k}"
+        let w0 : Cfi.World.World := { reg := reg, slots := reg.fields.map (fun _ => Cfi.Val.none),
+                                      regs := fun _ => none, files := fun _ => none }
+        let wN := Cfi.World.run w0 ops
+        let finals ← (← arrF wj "final").toList.mapM fun e => do
+          let a ← e.getArr?
+          pure ((← (← idx a 0).getNat?), (← decodeVals (← idx a 1)))
+        pure (finals.filterMap fun (i, d) => if wN.regs i == some d then none else some i)
+    let ok := bad.isEmpty && badc.isEmpty && worldBad.isEmpty
     pure (Json.mkObj [("indomain", toJson true), ("agree", toJson ok), ("holds", toJson ok), ("model_holds", toJson true),
-      ("objects_changed_by_others", Json.arr bad), ("failed", toJson (badc.map (·.1)))])
+      ("objects_changed_by_others", Json.arr bad), ("failed", toJson (badc.map (·.1))),
+      ("registers_differing_from_world_model", toJson worldBad)])
 
 end Driver.Misc
